@@ -615,3 +615,648 @@ func checkDecodeSem(w *World, r *Report) {
 	}
 	r.Floor("decodesem", 13)
 }
+
+// ---- stacksem: arithmetic, logical and stack operators
+//
+// The case clauses of abs, add, sub, div, neg, eq, drop, ifelse, mul, sqrt,
+// dup, exch, and, or, not are interpreted with a symbolic operand stack
+// s0..s(n-1): arithmetic builds expression trees, comparisons of symbolic
+// values fork the path.  The decision tree obtained (conditions -> resulting
+// stack) is then compared with the operator's definition (TN5177 4.5) on a
+// finite grid of operand values: what is evaluated are the extracted
+// expression trees, not the library.
+
+type ssExpr struct {
+	op   string // "sym", "const", "+", "-", "*", "/", "neg", "abs", "sqrt"
+	idx  int
+	val  float64
+	a, b *ssExpr
+}
+
+func (e *ssExpr) eval(v []float64) float64 {
+	switch e.op {
+	case "sym":
+		return v[e.idx]
+	case "const":
+		return e.val
+	case "+":
+		return e.a.eval(v) + e.b.eval(v)
+	case "-":
+		return e.a.eval(v) - e.b.eval(v)
+	case "*":
+		return e.a.eval(v) * e.b.eval(v)
+	case "/":
+		return e.a.eval(v) / e.b.eval(v)
+	case "neg":
+		return -e.a.eval(v)
+	case "abs":
+		x := e.a.eval(v)
+		if x < 0 {
+			return -x
+		}
+		return x
+	case "sqrt":
+		x := e.a.eval(v)
+		// Newton iteration is not needed: the grid only contains perfect squares and non-squares are compared through x*x
+		return sqrtApprox(x)
+	}
+	return 0
+}
+
+func sqrtApprox(x float64) float64 {
+	if x <= 0 {
+		return 0
+	}
+	r := x
+	for i := 0; i < 60; i++ {
+		r = (r + x/r) / 2
+	}
+	return r
+}
+
+type ssCond struct {
+	op   string // "<", "<=", "==", "!=", ">", ">="
+	a, b *ssExpr
+	want bool
+}
+
+func (c ssCond) holds(v []float64) bool {
+	x, y := c.a.eval(v), c.b.eval(v)
+	var r bool
+	switch c.op {
+	case "<":
+		r = x < y
+	case "<=":
+		r = x <= y
+	case "==":
+		r = x == y
+	case "!=":
+		r = x != y
+	case ">":
+		r = x > y
+	case ">=":
+		r = x >= y
+	}
+	return r == c.want
+}
+
+type ssPath struct {
+	conds []ssCond
+	stack []*ssExpr
+	nums  map[string]*ssExpr
+	ints  map[string]int
+	err   bool // the path returns an error
+	done  bool
+}
+
+func (p *ssPath) clone() *ssPath {
+	n := &ssPath{conds: append([]ssCond{}, p.conds...), stack: append([]*ssExpr{}, p.stack...), nums: map[string]*ssExpr{}, ints: map[string]int{}, err: p.err, done: p.done}
+	for k, v := range p.nums {
+		n.nums[k] = v
+	}
+	for k, v := range p.ints {
+		n.ints[k] = v
+	}
+	return n
+}
+
+type ssInterp struct {
+	info *types.Info
+	err  string
+}
+
+func (in *ssInterp) fail(f string, a ...interface{}) {
+	if in.err == "" {
+		in.err = fmt.Sprintf(f, a...)
+	}
+}
+
+func (in *ssInterp) intv(e ast.Expr, p *ssPath) (int, bool) {
+	if tv, ok := in.info.Types[e]; ok && tv.Value != nil && tv.Value.Kind() == constant.Int {
+		v, ok := constant.Int64Val(tv.Value)
+		return int(v), ok
+	}
+	switch x := e.(type) {
+	case *ast.ParenExpr:
+		return in.intv(x.X, p)
+	case *ast.Ident:
+		v, ok := p.ints[x.Name]
+		return v, ok
+	case *ast.CallExpr:
+		if id, ok := x.Fun.(*ast.Ident); ok && id.Name == "len" && len(x.Args) == 1 && types.ExprString(x.Args[0]) == "stack" {
+			return len(p.stack), true
+		}
+	case *ast.BinaryExpr:
+		a, ok1 := in.intv(x.X, p)
+		b, ok2 := in.intv(x.Y, p)
+		if ok1 && ok2 {
+			switch x.Op {
+			case token.ADD:
+				return a + b, true
+			case token.SUB:
+				return a - b, true
+			}
+		}
+	}
+	return 0, false
+}
+
+func (in *ssInterp) numv(e ast.Expr, p *ssPath) (*ssExpr, bool) {
+	if tv, ok := in.info.Types[e]; ok && tv.Value != nil {
+		f, _ := constant.Float64Val(constant.ToFloat(tv.Value))
+		return &ssExpr{op: "const", val: f}, true
+	}
+	switch x := e.(type) {
+	case *ast.ParenExpr:
+		return in.numv(x.X, p)
+	case *ast.Ident:
+		v, ok := p.nums[x.Name]
+		return v, ok
+	case *ast.IndexExpr:
+		if types.ExprString(x.X) == "stack" {
+			i, ok := in.intv(x.Index, p)
+			if !ok || i < 0 || i >= len(p.stack) {
+				in.fail("stack index %s not understood or out of range", types.ExprString(x.Index))
+				return nil, false
+			}
+			return p.stack[i], true
+		}
+	case *ast.UnaryExpr:
+		if x.Op == token.SUB {
+			a, ok := in.numv(x.X, p)
+			if !ok {
+				return nil, false
+			}
+			return &ssExpr{op: "neg", a: a}, true
+		}
+	case *ast.BinaryExpr:
+		a, ok1 := in.numv(x.X, p)
+		b, ok2 := in.numv(x.Y, p)
+		if !ok1 || !ok2 {
+			return nil, false
+		}
+		switch x.Op {
+		case token.ADD:
+			return &ssExpr{op: "+", a: a, b: b}, true
+		case token.SUB:
+			return &ssExpr{op: "-", a: a, b: b}, true
+		case token.MUL:
+			return &ssExpr{op: "*", a: a, b: b}, true
+		case token.QUO:
+			return &ssExpr{op: "/", a: a, b: b}, true
+		}
+	case *ast.CallExpr:
+		name := types.ExprString(x.Fun)
+		if len(x.Args) == 1 {
+			a, ok := in.numv(x.Args[0], p)
+			if !ok {
+				return nil, false
+			}
+			switch name {
+			case "fix", "float64":
+				return a, true
+			case "math.Abs":
+				return &ssExpr{op: "abs", a: a}, true
+			case "math.Sqrt":
+				return &ssExpr{op: "sqrt", a: a}, true
+			}
+		}
+	}
+	return nil, false
+}
+
+// cond forks p on a (possibly compound) condition.
+func (in *ssInterp) cond(e ast.Expr, truth bool, p *ssPath) []*ssPath {
+	switch x := e.(type) {
+	case *ast.ParenExpr:
+		return in.cond(x.X, truth, p)
+	case *ast.UnaryExpr:
+		if x.Op == token.NOT {
+			return in.cond(x.X, !truth, p)
+		}
+	case *ast.BinaryExpr:
+		switch x.Op {
+		case token.LAND:
+			if truth {
+				var out []*ssPath
+				for _, q := range in.cond(x.X, true, p) {
+					out = append(out, in.cond(x.Y, true, q)...)
+				}
+				return out
+			}
+			out := in.cond(x.X, false, p)
+			for _, q := range in.cond(x.X, true, p) {
+				out = append(out, in.cond(x.Y, false, q)...)
+			}
+			return out
+		case token.LOR:
+			if truth {
+				out := in.cond(x.X, true, p)
+				for _, q := range in.cond(x.X, false, p) {
+					out = append(out, in.cond(x.Y, true, q)...)
+				}
+				return out
+			}
+			var out []*ssPath
+			for _, q := range in.cond(x.X, false, p) {
+				out = append(out, in.cond(x.Y, false, q)...)
+			}
+			return out
+		case token.LSS, token.LEQ, token.EQL, token.NEQ, token.GTR, token.GEQ:
+			// integer comparison (k < 0): concrete
+			if a, ok := in.intv(x.X, p); ok {
+				if b, ok := in.intv(x.Y, p); ok {
+					var v bool
+					switch x.Op {
+					case token.LSS:
+						v = a < b
+					case token.LEQ:
+						v = a <= b
+					case token.EQL:
+						v = a == b
+					case token.NEQ:
+						v = a != b
+					case token.GTR:
+						v = a > b
+					case token.GEQ:
+						v = a >= b
+					}
+					if v == truth {
+						return []*ssPath{p}
+					}
+					return nil
+				}
+			}
+			a, ok1 := in.numv(x.X, p)
+			b, ok2 := in.numv(x.Y, p)
+			if ok1 && ok2 {
+				q := p.clone()
+				q.conds = append(q.conds, ssCond{op: x.Op.String(), a: a, b: b, want: truth})
+				return []*ssPath{q}
+			}
+		}
+	}
+	in.fail("condition %s is not understood", types.ExprString(e))
+	return nil
+}
+
+func (in *ssInterp) block(stmts []ast.Stmt, paths []*ssPath) []*ssPath {
+	for _, s := range stmts {
+		var next []*ssPath
+		for _, p := range paths {
+			if p.done || p.err {
+				next = append(next, p)
+				continue
+			}
+			next = append(next, in.stmt(s, p)...)
+		}
+		paths = next
+		if in.err != "" {
+			return nil
+		}
+	}
+	return paths
+}
+
+func (in *ssInterp) setStack(lhs ast.Expr, v *ssExpr, p *ssPath) bool {
+	ix, ok := lhs.(*ast.IndexExpr)
+	if !ok || types.ExprString(ix.X) != "stack" {
+		return false
+	}
+	i, ok := in.intv(ix.Index, p)
+	if !ok || i < 0 || i >= len(p.stack) {
+		in.fail("store to %s not understood", types.ExprString(lhs))
+		return false
+	}
+	p.stack[i] = v
+	return true
+}
+
+func (in *ssInterp) stmt(s ast.Stmt, p *ssPath) []*ssPath {
+	switch x := s.(type) {
+	case *ast.AssignStmt:
+		p = p.clone()
+		if len(x.Lhs) == 2 && len(x.Rhs) == 2 { // exchange
+			a, ok1 := in.numv(x.Rhs[0], p)
+			b, ok2 := in.numv(x.Rhs[1], p)
+			if ok1 && ok2 && in.setStack(x.Lhs[0], a, p) && in.setStack(x.Lhs[1], b, p) {
+				return []*ssPath{p}
+			}
+			in.fail("tuple assignment not understood")
+			return nil
+		}
+		if len(x.Lhs) != 1 || len(x.Rhs) != 1 {
+			in.fail("assignment form not understood")
+			return nil
+		}
+		lhs, rhs := x.Lhs[0], x.Rhs[0]
+		// stack = stack[:E]  /  stack = append(stack[:E], v...)  /  stack = append(stack, v)
+		if types.ExprString(lhs) == "stack" {
+			switch r := rhs.(type) {
+			case *ast.SliceExpr:
+				if types.ExprString(r.X) == "stack" && r.Low == nil && r.High != nil {
+					if n, ok := in.intv(r.High, p); ok && n >= 0 && n <= len(p.stack) {
+						p.stack = p.stack[:n]
+						return []*ssPath{p}
+					}
+				}
+			case *ast.CallExpr:
+				if id, ok := r.Fun.(*ast.Ident); ok && id.Name == "append" && len(r.Args) >= 1 {
+					base := p.stack
+					if sl, ok := r.Args[0].(*ast.SliceExpr); ok && types.ExprString(sl.X) == "stack" && sl.Low == nil && sl.High != nil {
+						n, ok := in.intv(sl.High, p)
+						if !ok || n < 0 || n > len(p.stack) {
+							in.fail("append base not understood")
+							return nil
+						}
+						base = append([]*ssExpr{}, p.stack[:n]...)
+					} else if types.ExprString(r.Args[0]) != "stack" {
+						in.fail("append base not understood")
+						return nil
+					}
+					for _, a := range r.Args[1:] {
+						v, ok := in.numv(a, p)
+						if !ok {
+							in.fail("appended value %s not understood", types.ExprString(a))
+							return nil
+						}
+						base = append(base, v)
+					}
+					p.stack = base
+					return []*ssPath{p}
+				}
+			}
+			in.fail("assignment to stack not understood: %s", types.ExprString(rhs))
+			return nil
+		}
+		if _, isIdx := lhs.(*ast.IndexExpr); isIdx {
+			var v *ssExpr
+			var ok bool
+			switch x.Tok {
+			case token.ASSIGN:
+				v, ok = in.numv(rhs, p)
+			case token.ADD_ASSIGN, token.SUB_ASSIGN, token.MUL_ASSIGN, token.QUO_ASSIGN:
+				var a, b *ssExpr
+				var ok1, ok2 bool
+				a, ok1 = in.numv(lhs, p)
+				b, ok2 = in.numv(rhs, p)
+				ok = ok1 && ok2
+				if ok {
+					op := map[token.Token]string{token.ADD_ASSIGN: "+", token.SUB_ASSIGN: "-", token.MUL_ASSIGN: "*", token.QUO_ASSIGN: "/"}[x.Tok]
+					v = &ssExpr{op: op, a: a, b: b}
+				}
+			}
+			if ok && in.setStack(lhs, v, p) {
+				return []*ssPath{p}
+			}
+			in.fail("store %s not understood", types.ExprString(lhs))
+			return nil
+		}
+		if id, ok := lhs.(*ast.Ident); ok {
+			if n, ok := in.intv(rhs, p); ok {
+				if tv, ok2 := in.info.Types[rhs]; ok2 && tv.Type != nil {
+					if b, ok3 := tv.Type.Underlying().(*types.Basic); ok3 && b.Info()&types.IsInteger != 0 {
+						p.ints[id.Name] = n
+						return []*ssPath{p}
+					}
+				}
+			}
+			if v, ok := in.numv(rhs, p); ok {
+				p.nums[id.Name] = v
+				return []*ssPath{p}
+			}
+		}
+		in.fail("assignment %s not understood", types.ExprString(lhs))
+		return nil
+	case *ast.DeclStmt:
+		p = p.clone()
+		if gd, ok := x.Decl.(*ast.GenDecl); ok {
+			for _, sp := range gd.Specs {
+				if vs, ok := sp.(*ast.ValueSpec); ok {
+					for i, nm := range vs.Names {
+						if len(vs.Values) > i {
+							if v, ok := in.numv(vs.Values[i], p); ok {
+								p.nums[nm.Name] = v
+							}
+						} else {
+							p.nums[nm.Name] = &ssExpr{op: "const", val: 0}
+						}
+					}
+				}
+			}
+		}
+		return []*ssPath{p}
+	case *ast.IfStmt:
+		var out []*ssPath
+		for _, q := range in.cond(x.Cond, true, p) {
+			out = append(out, in.block(x.Body.List, []*ssPath{q})...)
+		}
+		for _, q := range in.cond(x.Cond, false, p) {
+			switch e := x.Else.(type) {
+			case nil:
+				out = append(out, q)
+			case *ast.BlockStmt:
+				out = append(out, in.block(e.List, []*ssPath{q})...)
+			case *ast.IfStmt:
+				out = append(out, in.stmt(e, q)...)
+			}
+		}
+		return out
+	case *ast.ReturnStmt:
+		p = p.clone()
+		p.err = true
+		return []*ssPath{p}
+	case *ast.BlockStmt:
+		return in.block(x.List, []*ssPath{p})
+	}
+	in.fail("statement not understood")
+	return nil
+}
+
+// stackSpec: the definition of the operator on concrete operand values
+// (top of stack last); ok=false when the result is undefined for these values.
+func stackSpec(op string, v []float64) ([]float64, bool) {
+	n := len(v)
+	keep := func(k int) []float64 { return append([]float64{}, v[:n-k]...) }
+	b2f := func(b bool) float64 {
+		if b {
+			return 1
+		}
+		return 0
+	}
+	switch op {
+	case "t2abs":
+		x := v[n-1]
+		if x < 0 {
+			x = -x
+		}
+		return append(keep(1), x), true
+	case "t2add":
+		return append(keep(2), v[n-2]+v[n-1]), true
+	case "t2sub":
+		return append(keep(2), v[n-2]-v[n-1]), true
+	case "t2mul":
+		return append(keep(2), v[n-2]*v[n-1]), true
+	case "t2div":
+		if v[n-1] == 0 {
+			return nil, false
+		}
+		return append(keep(2), v[n-2]/v[n-1]), true
+	case "t2neg":
+		return append(keep(1), -v[n-1]), true
+	case "t2sqrt":
+		if v[n-1] < 0 {
+			return nil, false
+		}
+		return append(keep(1), sqrtApprox(v[n-1])), true
+	case "t2drop":
+		return keep(1), true
+	case "t2dup":
+		return append(keep(0), v[n-1]), true
+	case "t2exch":
+		return append(keep(2), v[n-1], v[n-2]), true
+	case "t2eq":
+		return append(keep(2), b2f(v[n-2] == v[n-1])), true
+	case "t2and":
+		return append(keep(2), b2f(v[n-2] != 0 && v[n-1] != 0)), true
+	case "t2or":
+		return append(keep(2), b2f(v[n-2] != 0 || v[n-1] != 0)), true
+	case "t2not":
+		return append(keep(1), b2f(v[n-1] == 0)), true
+	case "t2ifelse":
+		// s1 s2 v1 v2 ifelse: s1 if v1 <= v2, else s2
+		r := v[n-3]
+		if v[n-2] <= v[n-1] {
+			r = v[n-4]
+		}
+		return append(keep(4), r), true
+	}
+	return nil, false
+}
+
+func checkStackSem(w *World, r *Report) {
+	r.Rule("stacksem: for abs, add, sub, mul, div, neg, sqrt, drop, dup, exch, eq, and, or, not, ifelse the case clause of decodeCharString is interpreted with a symbolic operand stack (arithmetic builds expression trees, comparisons of operands fork the path); on every point of a grid of operand values the path taken yields the stack TN5177 4.5 defines (operands below the arguments untouched, results in order, the comparison of ifelse is v1 <= v2)")
+	pkg := w.All[modPath+"/cff"]
+	if pkg == nil {
+		r.Fatal("package cff not loaded")
+		return
+	}
+	var fd *ast.FuncDecl
+	for _, f := range pkg.Syntax {
+		for _, d := range f.Decls {
+			if x, ok := d.(*ast.FuncDecl); ok && x.Name.Name == "decodeCharString" {
+				fd = x
+			}
+		}
+	}
+	if fd == nil {
+		r.Fatal("decodeCharString not found")
+		return
+	}
+	clauses := map[string]*ast.CaseClause{}
+	ast.Inspect(fd.Body, func(n ast.Node) bool {
+		if cc, ok := n.(*ast.CaseClause); ok {
+			for _, e := range cc.List {
+				clauses[types.ExprString(e)] = cc
+			}
+		}
+		return true
+	})
+	arity := map[string]int{"t2abs": 1, "t2add": 2, "t2sub": 2, "t2mul": 2, "t2div": 2, "t2neg": 1, "t2sqrt": 1, "t2drop": 1, "t2dup": 1, "t2exch": 2, "t2eq": 2, "t2and": 2, "t2or": 2, "t2not": 1, "t2ifelse": 4}
+	var ops []string
+	for op := range arity {
+		ops = append(ops, op)
+	}
+	sortStrings(ops)
+	grid := []float64{-2, -1, 0, 1, 2, 4, 0.25}
+	for _, op := range ops {
+		key := r.MkKey("stacksem", "decodeCharString", "operator "+strings.TrimPrefix(op, "t2"))
+		cc := clauses[op]
+		if cc == nil {
+			r.Fail("stacksem", key, w.Pos(fd.Pos()), "no case for "+op, nil)
+			continue
+		}
+		n := arity[op] + 1 // one operand below the arguments must stay
+		in := &ssInterp{info: pkg.TypesInfo}
+		start := &ssPath{nums: map[string]*ssExpr{}, ints: map[string]int{}}
+		for i := 0; i < n; i++ {
+			start.stack = append(start.stack, &ssExpr{op: "sym", idx: i})
+		}
+		paths := in.block(cc.Body, []*ssPath{start})
+		if in.err != "" {
+			r.Fail("stacksem", key, w.Pos(cc.Pos()), strings.TrimPrefix(op, "t2")+": "+in.err, nil)
+			continue
+		}
+		bad := ""
+		vals := make([]float64, n)
+		var rec func(i int)
+		rec = func(i int) {
+			if bad != "" {
+				return
+			}
+			if i == n {
+				want, defined := stackSpec(op, vals)
+				if !defined {
+					return
+				}
+				var taken *ssPath
+				cnt := 0
+				for _, p := range paths {
+					ok := true
+					for _, c := range p.conds {
+						if !c.holds(vals) {
+							ok = false
+						}
+					}
+					if ok {
+						taken = p
+						cnt++
+					}
+				}
+				if cnt != 1 {
+					bad = fmt.Sprintf("for operands %v the case has %d applicable paths", vals, cnt)
+					return
+				}
+				if taken.err {
+					bad = fmt.Sprintf("for operands %v the case returns an error", vals)
+					return
+				}
+				var got []float64
+				for _, e := range taken.stack {
+					got = append(got, e.eval(vals))
+				}
+				if len(got) != len(want) {
+					bad = fmt.Sprintf("for operands %v the stack becomes %v, the operator is defined to leave %v", vals, got, want)
+					return
+				}
+				for j := range got {
+					d := got[j] - want[j]
+					if d < -1e-9 || d > 1e-9 {
+						bad = fmt.Sprintf("for operands %v the stack becomes %v, the operator is defined to leave %v", vals, got, want)
+						return
+					}
+				}
+				return
+			}
+			for _, g := range grid {
+				vals[i] = g
+				rec(i + 1)
+			}
+		}
+		rec(0)
+		if bad == "" {
+			r.OK("stacksem", key, w.Pos(cc.Pos()), fmt.Sprintf("agrees with TN5177 on the operand grid (%d paths)", len(paths)))
+		} else {
+			r.Fail("stacksem", key, w.Pos(cc.Pos()), strings.TrimPrefix(op, "t2")+": "+bad, nil)
+		}
+	}
+	r.Floor("stacksem", 15)
+}
+
+func sortStrings(s []string) {
+	for i := 1; i < len(s); i++ {
+		for j := i; j > 0 && s[j] < s[j-1]; j-- {
+			s[j], s[j-1] = s[j-1], s[j]
+		}
+	}
+}
